@@ -14,8 +14,10 @@ from .common import f2h
 RULE = ("scenes from the seed: 6..8 (thorough 6..10) cells per axis; per axis a face pair out of pml/pml, pml/none, "
         "none/pml, pml/pec, pec/pml, pml/pmc, pmc/pml, periodic/periodic, pec/pec, pmc/pmc, pec/pmc, none/none with at "
         "least one PML face, PML thickness 1..3 per face independently (interior >= 2 cells), uniform or non-uniform "
-        "grid, 0..1 source (electric/magnetic point dipole or uniform plane source, Gaussian pulse) inside the "
-        "interior, random initial fields in the interior (zero in the layers, wall-projected), random isotropic/"
+        "grid, 0..1 source (electric/magnetic point dipole, uniform or Gaussian plane source; CW or Gaussian pulse; "
+        "OnOffSwitch default / delayed start / interval 2 / fixed on-steps — the forced quick scene always has a magnetic "
+        "dipole with a delayed-start switch, i.e. an H-injecting source on the non-default-switch path of the reverse "
+        "updates) inside the interior, random initial fields in the interior (zero in the layers, wall-projected), random isotropic/"
         "diagonal inv_eps and scalar/diagonal inv_mu (lossless), T = 4..8 (thorough 4..25) steps, recorder "
         "Recorder(modules=[]) in float64; one extra float32 scene per run with a widening DtypeConversion(float64) "
         "module (tolerance 2e-5, float32 arithmetic). Oracle: max interior |backward^k(final) - forward state| <= 1e-9 "
@@ -59,10 +61,14 @@ def gen_case(rng, thorough, small=False):
     c["widths"] = [[50e-9 * rng.uniform(0.8, 1.25) for _ in range(n)] for n in shape] if nonuni else None
     lo = [spec.get(Y.FACES[2 * a], 0) for a in range(3)]
     hi = [shape[a] - spec.get(Y.FACES[2 * a + 1], 0) - 1 for a in range(3)]
-    kind = rng.choice(["none", "dipole_e", "dipole_m", "plane", "dipole_e"])
+    # H-injecting kinds (plane sources, magnetic dipoles) and non-default switches are the majority: the reverse H update
+    # has a separate code path for sources with a non-default OnOffSwitch (time argument t + 1/2)
+    kind = rng.choice(["none", "dipole_e", "dipole_m", "plane", "gauss", "dipole_m", "plane"])
     c["source"] = None if kind == "none" else dict(kind=kind, pol=rng.randint(0, 2), axis=rng.randint(0, 2),
                                                    direction=rng.choice(["+", "-"]), amp=rng.uniform(0.5, 2.0),
-                                                   pos=[rng.randint(lo[a], hi[a]) for a in range(3)])
+                                                   pos=[rng.randint(lo[a], hi[a]) for a in range(3)],
+                                                   switch=rng.choice(["default", "start", "interval", "fixed", "start"]),
+                                                   profile=rng.choice(["cw", "cw", "pulse"]))
     c["eps_tier"] = rng.choice([1, 3])
     c["mu_tier"] = rng.choice([0, 3])
     c["T"] = rng.randint(4, 25 if thorough else 8)
@@ -81,16 +87,20 @@ def make_source(c, vol):
     wave = f.WaveCharacter(wavelength=wl)
     prof = f.SingleFrequencyProfile() if s.get("profile") == "cw" else f.GaussianPulseProfile(
         spectral_width=f.WaveCharacter(wavelength=2 * wl), center_wave=wave)
+    dt = P.step_duration(c["widths"])
+    sw = {"default": f.OnOffSwitch(), "start": f.OnOffSwitch(start_time=1.5 * dt), "interval": f.OnOffSwitch(interval=2),
+          "fixed": f.OnOffSwitch(fixed_on_time_steps=[t for t in (1, 2, 4, 7, 8, 11) if t < c["T"]])}[s.get("switch", "default")]
     cons = []
-    if s["kind"] == "plane":
+    if s["kind"] in ("plane", "gauss"):
         ax = s["axis"]
         shp = [None, None, None]
         shp[ax] = 1
         pol = [0.0, 0.0, 0.0]
         pol[(ax + 1 + s["pol"] % 2) % 3] = 1.0
-        o = f.UniformPlaneSource(partial_grid_shape=tuple(shp), wave_character=wave, direction=s["direction"],
-                                 fixed_E_polarization_vector=tuple(pol), temporal_profile=prof,
-                                 static_amplitude_factor=s["amp"], name="src")
+        kw = dict(partial_grid_shape=tuple(shp), wave_character=wave, direction=s["direction"],
+                  fixed_E_polarization_vector=tuple(pol), temporal_profile=prof, switch=sw,
+                  static_amplitude_factor=s["amp"], name="src")
+        o = f.UniformPlaneSource(**kw) if s["kind"] == "plane" else f.GaussianPlaneSource(radius=1.2e-7, **kw)
         if c["widths"]:
             cons.append(o.place_at_center(vol, axes=(ax,)))
         else:
@@ -98,7 +108,7 @@ def make_source(c, vol):
     else:
         o = f.PointDipoleSource(partial_grid_shape=(1, 1, 1), wave_character=wave, polarization=s["pol"],
                                 source_type="electric" if s["kind"] == "dipole_e" else "magnetic", temporal_profile=prof,
-                                static_amplitude_factor=s["amp"], name="src")
+                                switch=sw, static_amplitude_factor=s["amp"], name="src")
         if c["widths"]:
             cons.append(o.place_at_center(vol))
         else:
@@ -176,7 +186,14 @@ def sweep(c, keep=False):
     else:
         arrays = Y.with_state(sc, E, H, inv_eps, None if c["mu_tier"] == 0 else inv_mu)
     T = int(sc.config.time_steps_total)
-    jnp = Y.J()["jnp"]
+    j = Y.J()
+    jnp, jax = j["jnp"], j["jax"]
+    key = jax.random.PRNGKey(0)
+    # forward()/backward() of the scene under jit (one compilation each per scene; in eager mode every step re-traces
+    # the lax.cond of switched sources and compiles every op per shape, which dominated the wall time)
+    fwd = jax.jit(lambda st: j["forward"](st, sc.config, sc.objects, key=key, record_detectors=False,
+                                          record_boundaries=True, simulate_boundaries=True))
+    bwd = jax.jit(lambda st: j["backward"](st, sc.config, sc.objects, key=key, record_detectors=False, reset_fields=True))
     if c.get("twice"):
         # a FIRST run (other initial fields) is recorded into the same container; ArrayContainer.reset() keeps the
         # recording buffers by default, so the second run below overwrites slots that are already written
@@ -186,14 +203,14 @@ def sweep(c, keep=False):
         a1 = a1.aset("fields->H", jnp.asarray(H1, dtype=arrays.fields.H.dtype))
         s1 = (jnp.asarray(0, dtype=jnp.int32), a1)
         for t in range(T):
-            s1 = Y.impl_forward(sc, s1[1], t=t, n=1, record_boundaries=True)
+            s1 = fwd(s1)
         a2 = s1[1].reset()
         a2 = a2.aset("fields->E", arrays.fields.E)
         arrays = a2.aset("fields->H", arrays.fields.H)
     st = (jnp.asarray(0, dtype=jnp.int32), arrays)
     traj, states = [fields(st)], [st] if keep else []
     for t in range(T):
-        st = Y.impl_forward(sc, st[1], t=t, n=1, record_boundaries=True)
+        st = fwd(st)
         traj.append(fields(st))
         if keep:
             states.append(st)
@@ -202,7 +219,7 @@ def sweep(c, keep=False):
     for t in range(T, 0, -1):
         if keep:
             back[t] = st
-        st = Y.impl_backward(sc, st, n=1, reset_fields=True)
+        st = bwd(st)
         Eb, Hb = fields(st)
         e = max(float(np.abs((Eb - traj[t - 1][0]) * inter).max()), float(np.abs((Hb - traj[t - 1][1]) * inter).max()))
         if not np.isfinite(e):
@@ -387,7 +404,7 @@ def one_case(ctx, c, sample=False, k=True):
     npml = len(c["spec"])
     ctx.case(sample={kk: c.get(kk) for kk in ("shape", "faces", "spec", "source", "T", "recorder", "twice", "seed")} if sample else None,
              nontrivial=("sweep", c["seed"], c["recorder"]), recorded_twice=bool(c.get("twice")), n_pml_faces=npml, T=c["T"], recorder=c["recorder"],
-             grid="nonuniform" if c["widths"] else "uniform", source=(c["source"] or {}).get("kind", "none"),
+             grid="nonuniform" if c["widths"] else "uniform", source=(c["source"] or {}).get("kind", "none"), switch=(c["source"] or {}).get("switch", "-"),
              max_thickness=max(c["spec"].values()), has_periodic="periodic" in c["faces"].values(),
              has_wall=any(v in ("pec", "pmc") for v in c["faces"].values()))
     if d:
@@ -403,11 +420,12 @@ FORCED = [
     # PML on all six faces with mixed thicknesses: every edge and corner overlap
     dict(shape=[8, 7, 7], faces={k: "pml" for k in Y.FACES},
          spec={"min_x": 2, "max_x": 3, "min_y": 1, "max_y": 2, "min_z": 3, "max_z": 1}, widths=None,
-         source=dict(kind="dipole_m", pol=0, axis=0, direction="+", amp=1.3, pos=[3, 2, 4]), eps_tier=1, mu_tier=0, T=5,
-         twice=True),
+         source=dict(kind="dipole_m", pol=0, axis=0, direction="+", amp=1.3, pos=[3, 2, 4], switch="start", profile="cw"),
+         eps_tier=1, mu_tier=0, T=5, twice=True),
     dict(shape=[7, 6, 6], faces={"min_x": "pml", "max_x": "pml", "min_y": "periodic", "max_y": "periodic", "min_z": "pec", "max_z": "pml"},
          spec={"min_x": 2, "max_x": 1, "max_z": 3}, widths=None,
-         source=dict(kind="dipole_e", pol=2, axis=0, direction="+", amp=1.0, pos=[3, 2, 1]), eps_tier=3, mu_tier=3, T=6),
+         source=dict(kind="plane", pol=1, axis=0, direction="-", amp=1.0, pos=[3, 2, 1], switch="interval", profile="cw"),
+         eps_tier=3, mu_tier=3, T=6),
 ]
 
 
